@@ -79,7 +79,12 @@ def _start_ok(solve):
         p = loop["pat"]["pat"] if loop["pat"].get("k") == "PType" else loop["pat"]
         if p.get("k") != "PTuple" or len(p["elems"]) != 2:
             continue
-        v, i = A.binding_name(p["elems"][0]), A.binding_name(p["elems"][1])
+        def _bn(x):
+            while isinstance(x, dict) and x.get("k") in ("PRef", "PReference") and x.get("pat") is not None:
+                x = x["pat"]
+            return A.binding_name(x)
+
+        v, i = _bn(p["elems"][0]), _bn(p["elems"][1])
         for a in A.find(loop["body"], "Assign"):
             m = re.fullmatch(r"(\w+)\[\*?%s\]" % re.escape(i or "?"), str(A.ftxt(a["left"])))
             if not m:
@@ -90,6 +95,14 @@ def _start_ok(solve):
                 for names, scrut, dk, _st in A.variant_lets(loop["body"], "Free"):
                     if names == [A.ident(val)] and dk == "panic":
                         src = str(A.ftxt(A.strip(scrut)))
+                if src is None:
+                    # the assignment sits in the `Parameter::Free(f)` arm of a match whose other arms cannot be reached
+                    for pat_, scr_ in A.enclosing_patterns(loop["body"], a) or []:
+                        segs_, subs_ = A.pat_variant(pat_) if pat_.get("k") == "PTupleStruct" else (None, None)
+                        if segs_ and segs_[-2:] == ["Parameter", "Free"] and subs_ and A.binding_name(subs_[0]) == A.ident(val):
+                            mm_ = [m_ for m_ in A.find(loop["body"], "Match") if any(n_ is a for n_ in A.walk(m_))]
+                            if mm_ and all(A._diverge_kind(ar_["body"]) == "panic" for ar_ in mm_[-1]["arms"] if not any(n_ is a for n_ in A.walk(ar_))):
+                                src = str(A.ftxt(A.strip(scr_)))
             elif val.get("k") == "Match":
                 hit, others = False, True
                 for arm in val["arms"]:
